@@ -30,6 +30,32 @@ impl Property for C19 {
     type Sc = XargsScenario;
 
     fn generate(rng: &mut Rng, _tier: Tier) -> XargsScenario {
+        if rng.chance(1, 300) {
+            // exactly 256 or 512 invocations fail with an ordinary status (no fatal one): 123
+            let failing = *rng.pick(&[256usize, 256, 512, 255, 257]);
+            let total = failing + *rng.pick(&[0usize, 0, 1, 44, 300]);
+            let mut outcomes: Vec<Outcome> = (0..total).map(|k| if k < failing { Outcome::Exit(*rng.pick(&[1, 2, 77, 125])) } else { Outcome::Exit(0) }).collect();
+            rng.shuffle(&mut outcomes);
+            let replace = rng.chance(1, 3);
+            let mut input = Vec::new();
+            for i in 0..total {
+                input.extend_from_slice(format!("a{i}\n").as_bytes());
+            }
+            return XargsScenario {
+                opts: if replace { vec![Opt::ReplI("{}".into())] } else { vec![Opt::N(1)] },
+                cmd: if replace { vec!["CMD".into(), "{}".into()] } else { vec!["CMD".into()] },
+                input: B(input),
+                read_plan: vec![],
+                outcomes,
+                rlimit_stack: None,
+                env: None,
+                real: None,
+                note: "script exact-count".into(),
+                decoy_in_cwd: false,
+                echo_mode: false,
+                extra: Default::default(),
+            };
+        }
         let mut sc = XargsScenario {
             opts: vec![],
             cmd: vec!["CMD".into()],
@@ -52,7 +78,21 @@ impl Property for C19 {
             1 => {
                 // xargs' own errors
                 sc.note = "own-error".into();
-                match rng.below(11) {
+                match rng.below(12) {
+                    11 => {
+                        // an argument one byte beyond what the kernel takes as a single string
+                        // (or more): xargs' own error, whatever the children did before
+                        sc.opts.push(Opt::N(1));
+                        let m = rng.urange(0, 3);
+                        let mut inp = gen_tokens(rng, m, false);
+                        if m > 0 && !inp.ends_with(b" ") && !inp.ends_with(b"\n") {
+                            inp.push(b'\n');
+                        }
+                        inp.extend(std::iter::repeat(b'G').take(*rng.pick(&[131_072usize, 131_072, 131_073, 140_000])));
+                        inp.extend_from_slice(b"\nzz\n");
+                        sc.input = B(inp);
+                        sc.outcomes = gen_outcomes(rng, m + 1, false);
+                    }
                     8 => {
                         // a numeric escape that does not fit in one byte is a bad option value
                         sc.opts.push(Opt::Delim(rng.pick(&["\\x100", "\\x161", "\\0400", "\\0777", "\\x1ff", "\\x", "\\08"]).to_string()));
